@@ -41,7 +41,12 @@ fn once(gsrc: String, input: String, cost: u8) -> Result<String, String> {
     let (_, stable) = from_yacc(&grm, Minimiser::Pager).map_err(|_| "table".to_string())?;
     // with conflicts settled by the default rules plain LR parsing itself can loop (hidden left recursion, e.g.
     // S: | A A 'b'; A: S S | ..): outside what this sweep judges
-    if stable.conflicts().is_some() { return Err("grammar".into()); }
+    // (the recorded finding C07.lr.every_parse_returns).  Without a rule that derives the empty string consecutive reductions
+    // shrink the stack or run along unit productions, which `cyclic` has excluded: such grammars are judged with their conflicts.
+    if stable.conflicts().is_some() {
+        let firsts = grm.firsts();
+        if grm.iter_rules().any(|r| firsts.is_epsilon_set(r)) { return Err("grammar".into()); }
+    }
     let mut lexerdef = LRNonStreamingLexerDef::<LT>::from_str(LEX).map_err(|_| "lexer".to_string())?;
     let ids: std::collections::HashMap<&str, u32> = grm.tokens_map().into_iter().map(|(k, v)| (k, u32::from(v))).collect();
     lexerdef.set_rule_ids(&ids);
@@ -174,6 +179,29 @@ const GRMS: &[&str] = &[
     "%start S\n%%\nS: S 'a' | ;",
 ];
 
+/// grammars without empty productions whose conflicts the default rules settle (dangling-else shapes, shared prefixes)
+fn conflict_family(seed: u64) -> String {
+    let mut r = crate::grms::Rng(seed.wrapping_mul(0x94D049BB133111EB) | 1);
+    let toks = ["'a'", "'b'", "'c'"];
+    let nr = 2 + r.below(3);
+    let mut s = String::from("%start R0\n%%\n");
+    for i in 0..nr {
+        s.push_str(&format!("R{}: ", i));
+        let np = 1 + r.below(3);
+        for p in 0..np {
+            if p > 0 { s.push_str(" | "); }
+            let len = 1 + r.below(4);       // never empty
+            for k in 0..len {
+                // the first symbol is a token, so that no rule is left recursive through a unit chain
+                if k == 0 || r.below(2) == 0 { s.push_str(toks[r.below(3)]); } else { s.push_str(&format!("R{}", r.below(nr))); }
+                s.push(' ');
+            }
+        }
+        s.push_str(";\n");
+    }
+    s
+}
+
 pub fn search(_tag: &str, tier: &str) -> Option<Value> {
     let lens: &[usize] = if tier == "thorough" { &[0, 1, 2, 3, 5, 9, 40, 130, 260, 300, 600] } else { &[0, 1, 2, 3, 5, 9, 40, 260, 300] };
     for g in GRMS {
@@ -198,6 +226,17 @@ pub fn search(_tag: &str, tier: &str) -> Option<Value> {
         if r.below(3) == 0 { g = g.replacen("%%", &format!("%avoid_insert '{}'\n%%", ["a", "b", "c"][r.below(3)]), 1); }
         for _ in 0..6 {
             let l = 1 + r.below(7);
+            let input: String = (0..l).map(|_| ["a ", "b ", "c "][r.below(3)]).collect();
+            let o = run(&g, &input, 1);
+            if o.fails { return Some(witness("c07_recover", json!({"grammar": g, "input": input, "cost": 1}), &o)); }
+        }
+    }
+    // grammars without empty productions, conflicts included
+    let n2 = if tier == "thorough" { 4000 } else { 500 };
+    for seed in 1..=n2 {
+        let g = conflict_family(seed);
+        for _ in 0..6 {
+            let l = r.below(6);
             let input: String = (0..l).map(|_| ["a ", "b ", "c "][r.below(3)]).collect();
             let o = run(&g, &input, 1);
             if o.fails { return Some(witness("c07_recover", json!({"grammar": g, "input": input, "cost": 1}), &o)); }
